@@ -18,7 +18,7 @@ RULE = (
     "Exhaustive: for parent in 0..2^10-1, child in 1..2^10-1, edges in {True, False}: subseq_segment_dist == -1 iff child has a bit outside parent, "
     "else the number of maximal runs of parent positions absent from child (runs touching either end ignored when edges=False).  For L in 0..8, "
     "parent = L distinct elements, every mask m: subseq_from_mask(m) == elements at set bits, mask_from_subseq(that) == m, subseq_complete == 2^L-1. "
-    "History independence: every ordered couple of calls over the contained pairs up to 6 bits (first call with one end mode, second with the other) and random call sequences of 2-12 calls on <=7 bits must give the reference answer for the later call.  Random: masks up to 24 bits, sequences of distinct strings/ints/tuples.  The exhaustive space is enumerated completely in both tiers.  "
+    "Conversions on one list object edited in place between calls (every in-place permutation of 2..5 elements exhaustively; random histories of reverse/swap/replace/append/pop/rotate/copy) must follow the current content.  History independence: every ordered couple of calls over the contained pairs up to 6 bits (first call with one end mode, second with the other) and random call sequences of 2-12 calls on <=7 bits must give the reference answer for the later call.  Random: masks up to 24 bits, sequences of distinct strings/ints/tuples.  The exhaustive space is enumerated completely in both tiers.  "
     "Non-trivial: child strictly inside parent with >=1 interior and >=1 end run; distinct by (child, parent)."
 )
 ASSUMPTIONS = ["child mask non-empty", "sequence elements distinct"]
@@ -51,7 +51,7 @@ def ref_dist(child, parent, edges, nbits):
 
 
 def exhaustive(tier):
-    return [("dist", i, 64) for i in range(64)] + [("conv", 0, 1)] + [("couples", i, 32) for i in range(32)]
+    return [("dist", i, 64) for i in range(64)] + [("conv", 0, 1)] + [("couples", i, 32) for i in range(32)] + [("inplace", 0, 1)]
 
 
 def run_job(job):
@@ -66,6 +66,9 @@ def run_job(job):
         for k in range(len(pairs)):
             if k % mod == idx:
                 yield {"kind": "couple_block", "first": k}
+    elif kind == "inplace":
+        for length in range(2, 6):
+            yield {"kind": "inplace_block", "length": length}
     else:
         for length in range(0, 9):
             yield {"kind": "conv_block", "length": length}
@@ -75,8 +78,33 @@ def contained_pairs(bits):
     return [(c, p) for p in range(1 << bits) for c in range(1, 1 << bits) if not c & ~p]
 
 
+def _conv_all(seq, tag, extra):
+    """all three conversions on the list object `seq` as it is now, every mask."""
+    from superrec2.utils.subsequences import mask_from_subseq, subseq_complete, subseq_from_mask
+
+    n = len(seq)
+    if subseq_complete(seq) != (1 << n) - 1:
+        raise Violation(f"subseq_complete.{tag}", observed=subseq_complete(seq), expected=(1 << n) - 1, extra=extra)
+    for mask in range(1 << n):
+        exp = [seq[i] for i in range(n) if mask >> i & 1]
+        sub = subseq_from_mask(mask, seq)
+        if sub != exp:
+            raise Violation(f"subseq_from_mask.{tag}", observed=sub, expected=exp, extra=dict(extra, mask=mask, sequence=list(seq)))
+        back = mask_from_subseq(exp, seq)
+        if back != mask:
+            raise Violation(f"mask_from_subseq.{tag}", observed=back, expected=mask, extra=dict(extra, subseq=exp, sequence=list(seq)))
+    return 2 << n
+
+
 @st.composite
 def _random(draw):
+    if gen_chance(draw, 1, 5):
+        n = draw(st.integers(2, 6))
+        ops = []
+        for _ in range(draw(st.integers(1, 6))):
+            op = draw(st.sampled_from(["reverse", "swap", "replace", "append", "pop", "rotate", "copy"]))
+            ops.append([op, draw(st.integers(0, 7)), draw(st.integers(0, 7))])
+        return {"kind": "conv_history", "n": n, "ops": ops}
     if gen_chance(draw, 1, 3):
         nb = draw(st.integers(1, 7))
         calls = []
@@ -152,6 +180,44 @@ def check(case):
                 raise Violation("segment_dist.in-sequence", observed=got, expected=exp,
                                 extra={"child": bin(child), "parent": bin(parent), "edges": edges})
         return Result(len(case["calls"]) >= 3, [kind], evals=evals)
+    if kind == "inplace_block":
+        # the functions take the parent sequence as an argument: the same list object holding another
+        # order must be converted by its current content (every in-place permutation of 2..5 elements)
+        import itertools
+
+        length = case["length"]
+        evals = 0
+        for perm in itertools.permutations(range(length)):
+            seq = [f"e{i}" for i in range(length)]
+            evals += _conv_all(seq, "before-edit", {"perm": perm})
+            seq[:] = [f"e{i}" for i in perm]
+            evals += _conv_all(seq, "after-in-place-edit", {"perm": perm})
+        return Result(True, [kind], evals=evals)
+    if kind == "conv_history":
+        seq = [f"e{i}" for i in range(case["n"])]
+        fresh = case["n"]
+        evals = _conv_all(seq, "initial", {})
+        for step, (op, a, b) in enumerate(case["ops"]):
+            if op == "reverse":
+                seq.reverse()
+            elif op == "swap" and seq:
+                i, j = a % len(seq), b % len(seq)
+                seq[i], seq[j] = seq[j], seq[i]
+            elif op == "replace" and seq:
+                seq[a % len(seq)] = f"e{fresh}"
+                fresh += 1
+            elif op == "append" and len(seq) < 8:
+                seq.append(f"e{fresh}")
+                fresh += 1
+            elif op == "pop" and seq:
+                seq.pop(a % len(seq))
+            elif op == "rotate" and seq:
+                k = a % len(seq)
+                seq[:] = seq[k:] + seq[:k]
+            elif op == "copy":
+                seq = list(seq)  # an equal but distinct object
+            evals += _conv_all(seq, f"after-{op}", {"step": step, "ops": case["ops"]})
+        return Result(True, [kind], evals=evals)
     if kind == "conv_block":
         length = case["length"]
         parent = [f"e{i}" for i in range(length)]
